@@ -421,12 +421,14 @@ func c11RunConc(t rt.TB, c c11Conc) {
 		subs := make([]ro.Subscription, c.Subscribers)
 		var wg sync.WaitGroup
 		start := make(chan struct{})
+		bar := rt.NewBarrier(len(recs))
 		for i := range recs {
 			recs[i] = rt.NewRecorder[int]()
 			wg.Add(1)
 			go func(i int) {
 				defer wg.Done()
 				<-start
+				bar.Wait()
 				subs[i] = shared.Subscribe(recs[i])
 			}(i)
 		}
